@@ -13,9 +13,13 @@ CONSTANTS
     MaxTasks = 0
     MaxDepth = 2
     Panics = TRUE
+    Discards = FALSE
     MaxSpans = 2
     IncomingKinds <- MC_IncBoth
     WithLazy = FALSE
+    HasRng = TRUE
+    ExplicitKinds <- MC_ExNone
+    PushLastWins = TRUE
     WithCancel = FALSE
     CancelOwnIds = FALSE
     CtxForms <- MC_Forms
